@@ -169,3 +169,13 @@ Proof.
   destruct (fix_blocks run_seq 0 (pl_blocks p)) as [[bs res] stop]. simpl.
   repeat match goal with |- context [if ?c then _ else _] => destruct c end; reflexivity.
 Qed.
+
+(* ... and then the plan is Completed or Failed: Recovery goes straight to End *)
+Lemma fix_plan_early_terminal run_seq p :
+  pl_st p = Running -> plan_returns_early p = true -> is_terminal (pl_st (fp_pln (fix_plan run_seq p))) = true.
+Proof.
+  intros Hr He. unfold fix_plan. rewrite Hr. simpl. unfold plan_returns_early in He.
+  destruct (chk_is Completed (fix_checks_opt (pl_bypass p))); simpl; [reflexivity|].
+  destruct (checks_failed (pl_pre p)); simpl; [reflexivity|].
+  destruct (checks_failed (pl_post p)); simpl; [reflexivity|]. discriminate.
+Qed.
